@@ -7,7 +7,8 @@ import NixModel.Lemmas.C13Ids
 the caller supplied (`given`, by key), a library-made text `gen k` for every other entity.  It is fit for a forest
 (`IdsOK`) as soon as
 
-* the library-made texts are pairwise different ids (uuid4 freshness, DESIGN section 8),
+* the library-made texts of the entities of the forest are pairwise different ids (uuid4 freshness, DESIGN section 8;
+  asked for the keys of the forest only - there are finitely many uuids),
 * the supplied texts are ids (`Section.create_new` stores nothing else: `storedId`), pairwise different as texts and
   different from every library-made text,
 * no node is named like one of these texts (name / id dispatch belongs to C03).
@@ -19,12 +20,12 @@ namespace Nix.Tree.Ids
 open Nix.Tree Nix.Py
 
 structure SuppliedOK (given : List (Nat × String)) (gen : Nat → String) (rs : List Node) : Prop where
-  genInj : ∀ a b, gen a = gen b → a = b
-  genUuid : ∀ a, uuidAccepts (gen a) = true
+  genInj : ∀ a ∈ keysL rs, ∀ b ∈ keysL rs, gen a = gen b → a = b
+  genUuid : ∀ a ∈ keysL rs, uuidAccepts (gen a) = true
   givenUuid : ∀ k t, (k, t) ∈ given → uuidAccepts t = true
   givenNodup : (given.map Prod.snd).Nodup
-  sep : ∀ k t, (k, t) ∈ given → ∀ a, t ≠ gen a
-  names : ∀ n ∈ nodesL rs, (∀ a, n.name ≠ gen a) ∧ ∀ k t, (k, t) ∈ given → n.name ≠ t
+  sep : ∀ k t, (k, t) ∈ given → ∀ a ∈ keysL rs, t ≠ gen a
+  names : ∀ n ∈ nodesL rs, (∀ a ∈ keysL rs, n.name ≠ gen a) ∧ ∀ k t, (k, t) ∈ given → n.name ≠ t
 
 theorem lookup_mem {given : List (Nat × String)} {k : Nat} {t : String} (h : given.lookup k = some t) :
     (k, t) ∈ given := by
@@ -63,22 +64,22 @@ theorem idsOK_of_supplied {given : List (Nat × String)} {gen : Nat → String} 
     | none => exact .inr rfl
     | some t => exact .inl ⟨t, lookup_mem hl, rfl⟩
   refine ⟨?_, ?_, ?_⟩
-  · intro a _ b _ hab
+  · intro a ha b hb hab
     rcases cases_text a with ⟨ta, hma, hta⟩ | hta <;> rcases cases_text b with ⟨tb, hmb, htb⟩ | htb
     · have e : ta = tb := hta.symm.trans (hab.trans htb)
       exact snd_inj_of_nodup h.givenNodup hma (e ▸ hmb)
-    · exact absurd (hta.symm.trans (hab.trans htb)) (h.sep _ _ hma b)
-    · exact absurd (htb.symm.trans (hab.symm.trans hta)) (h.sep _ _ hmb a)
-    · exact h.genInj a b (hta.symm.trans (hab.trans htb))
-  · intro a _
+    · exact absurd (hta.symm.trans (hab.trans htb)) (h.sep _ _ hma b hb)
+    · exact absurd (htb.symm.trans (hab.symm.trans hta)) (h.sep _ _ hmb a ha)
+    · exact h.genInj a ha b hb (hta.symm.trans (hab.trans htb))
+  · intro a ha
     rcases cases_text a with ⟨ta, hma, hta⟩ | hta
     · have := h.givenUuid _ _ hma
       rw [hta]; exact this
-    · have := h.genUuid a
+    · have := h.genUuid a ha
       rw [hta]; exact this
-  · intro n hn a _
+  · intro n hn a ha
     rcases cases_text a with ⟨ta, hma, hta⟩ | hta
     · exact fun e => (h.names n hn).2 _ _ hma (e.trans hta)
-    · exact fun e => (h.names n hn).1 a (e.trans hta)
+    · exact fun e => (h.names n hn).1 a ha (e.trans hta)
 
 end Nix.Tree.Ids
